@@ -68,7 +68,7 @@ def coq_term_with_obs(line, obs):
             if not data:
                 lops = []
             else:
-                copied = blk["ret"][1] == 1 if len(blk["ret"]) > 1 else False
+                copied = blk["raw_ret"][1] == 1 if len(blk["raw_ret"]) > 1 else False
                 src = anch[-1] if anch else 0              # the anchor pushed last holds the source chunk
                 subs = [f"SubCopy {last_c}" if copied else "SubBorrow"] + (["SubCollapse"] if len_a == len_b else [])
                 lops = [f"OpAnchored {src} {glist(subs)}"]
